@@ -26,6 +26,28 @@ def replay(model, obligation):
         r = ProtocolVersion.get_lower_supported(p)
         failed = [n for n, c in post_lower(p, r) if not c]
         return {'reproduced': bool(failed), 'detail': 'get_lower_supported(%d) -> %r; failed %s' % (p, r, failed)}
+    if 'explicit-version-recorded' in obligation:
+        from cassandra.connection import Connection
+        m = types.ModuleType('cassandra.io.libevreactor')
+        m.LibevConnection = type('LibevConnection', (Connection,), {})
+        sys.modules.setdefault('cassandra.io.libevreactor', m)
+        from cassandra.cluster import Cluster
+        from cassandra import DriverException
+        fails = []
+        for v in SUPPORTED:
+            c = Cluster(protocol_version=v, allow_beta_protocol_version=True)
+            try:
+                c.protocol_downgrade('host', v)
+                fails.append('Cluster(protocol_version=%d): a server that rejects v%d makes the driver go on with v%d' % (v, v, c.protocol_version))
+            except DriverException:
+                pass
+            finally:
+                c.shutdown()
+        c = Cluster()
+        if c._protocol_version_explicit:
+            fails.append('Cluster() without a version is treated as pinned to %d' % c.protocol_version)
+        c.shutdown()
+        return {'reproduced': bool(fails), 'detail': '; '.join(fails[:3]) or 'every explicitly given version is kept'}
     if 'protocol_downgrade' in obligation or 'try_connect' in obligation:
         from cassandra.connection import Connection
         m = types.ModuleType('cassandra.io.libevreactor')
